@@ -3,7 +3,7 @@
 # property's quick check, undo. Prints one line per change. (Patches written against an older
 # /repo HEAD may no longer apply once a fix: commit has rewritten the same lines.)
 cd "$(dirname "$0")/.."
-for d in seeded/*/; do
+for d in $PWD/seeded/*/; do
   n=$(basename $d); p=${n%%-*}
   [ "$p" = "X1" ] || [ "$p" = "X2" ] && p=$(python3 -c "import json;print(json.load(open('$d/meta.json'))['property'])")
   if ! git -C /repo apply --check $d/patch.diff 2>/dev/null; then echo "$n: patch no longer applies to the current tree"; continue; fi
